@@ -11,6 +11,7 @@ import (
 	"github.com/prometheus/prometheus/promql"
 	"github.com/prometheus/prometheus/promql/parser"
 
+	"github.com/thanos-community/promql-engine/api"
 	"github.com/thanos-community/promql-engine/engine"
 	"github.com/thanos-community/promql-engine/execution/model"
 	"github.com/thanos-community/promql-engine/execution/parse"
@@ -18,6 +19,7 @@ import (
 	"verifharness/optrace"
 	"verifharness/run"
 	"verifharness/scn"
+	"verifharness/vstore"
 	"verifharness/vt"
 )
 
@@ -50,7 +52,10 @@ func setup() {
 }
 
 func init() {
-	families["query"] = famQuery
+	families["query"] = func(sc *scn.Scenario, em func(vt.Ev)) { famQuery(sc, em, false) }
+	// the same comparison with the distributed engine (two remote engines holding the series of even
+	// and of odd index, local queryable = union) in the place of the plain engine
+	families["querydist"] = func(sc *scn.Scenario, em func(vt.Ev)) { famQuery(sc, em, true) }
 }
 
 // universe of label values in the dataset (plus ""), for regex acceptance sets
@@ -98,19 +103,33 @@ func unsupported(err error) bool {
 }
 
 // famQuery: engine (fallback disabled) versus the reference engine on the same storage.
-func famQuery(sc *scn.Scenario, em func(vt.Ev)) {
+func famQuery(sc *scn.Scenario, em func(vt.Ev), distributed bool) {
 	q := sc.Query()
 	expr, err := parser.ParseExpr(q)
 	if err != nil {
 		em(vt.Ev{"ev": "skip", "why": "parse: " + err.Error(), "q": q})
 		return
 	}
-	runtime.GOMAXPROCS(sc.CfgInt("procs", 4))
+	runtime.GOMAXPROCS(sc.Procs())
 	em(header(sc, expr))
 	if flagOps {
 		optrace.Configure(optrace.Mode{Record: true}, opSink)
 	}
-	eng := engine.New(run.EngineOpts(sc, sc.CfgStr("opt", "default"), true, nil))
+	var eng run.QueryEngine = engine.New(run.EngineOpts(sc, sc.CfgStr("opt", "default"), true, nil))
+	if distributed {
+		all := run.SeriesOf(sc, sc.Data)
+		var remotes []api.RemoteEngine
+		for e := 0; e < 2; e++ {
+			var part []vstore.Series
+			for j, s := range all {
+				if j%2 == e {
+					part = append(part, s)
+				}
+			}
+			remotes = append(remotes, engine.NewLocalEngine(run.EngineOpts(sc, "default", false, nil), vstore.New(part)))
+		}
+		eng = engine.NewDistributedEngine(run.EngineOpts(sc, "default", true, nil), api.NewStaticEndpoints(remotes))
+	}
 	out := run.Exec(context.Background(), eng, run.Store(sc), sc, false)
 	if flagOps {
 		optrace.Disable()
